@@ -137,6 +137,14 @@ type Conn struct {
 	encTableSize     uint32
 	encTableSizeSeen uint32
 
+	// encTableSizeMin is the smallest size the server asked for since the
+	// write loop last looked. A table that went down and up again between two
+	// requests has to be announced as such (RFC 7541 4.2): the server's decoder
+	// emptied its table on the way down. Guarded by sendLck, as is the pair
+	// above once the handshake is over.
+	encTableSizeMin   uint32
+	encTableSizeDirty bool
+
 	// hdrBuf collects the header block that is currently arriving: a HEADERS
 	// frame and the CONTINUATION frames that follow it. Only one block can be
 	// in progress on a connection (RFC 7540 6.10). It belongs to the read loop.
@@ -484,10 +492,22 @@ func (c *Conn) doHandshake() error {
 			c.maxStreams = c.serverS.MaxConcurrentStreams()
 			c.maxFrameSize = c.serverS.MaxFrameSize()
 
-			if st.HeaderTableSize() <= defaultHeaderTableSize {
-				c.enc.SetMaxTableSize(st.HeaderTableSize())
-				c.encTableSize = st.HeaderTableSize()
-				c.encTableSizeSeen = st.HeaderTableSize()
+			// We never use more than the default table, whatever the server
+			// allows, but what it asked for on the way there still counts: the
+			// smallest size is signalled before the one we settle on.
+			tableSize := st.HeaderTableSize()
+			if tableSize > defaultHeaderTableSize {
+				tableSize = defaultHeaderTableSize
+			}
+
+			if st.Has(HeaderTableSize) {
+				if st.tableSizeMin < tableSize {
+					c.enc.SetMaxTableSize(st.tableSizeMin)
+				}
+
+				c.enc.SetMaxTableSize(tableSize)
+				c.encTableSize = tableSize
+				c.encTableSizeSeen = tableSize
 			}
 
 			// reply back
@@ -1027,10 +1047,20 @@ func (c *Conn) writeRequest(ctx *Ctx) error {
 	// The server may have changed the header table size since the last request.
 	// The encoder is the write loop's, so this is the only safe place to apply
 	// it, and the encoder signals the change to the peer's decoder itself.
-	if size := atomic.LoadUint32(&c.encTableSize); size != c.encTableSizeSeen {
-		c.encTableSizeSeen = size
-		c.enc.SetMaxTableSize(size)
+	c.sendLck.Lock()
+
+	if c.encTableSizeDirty {
+		c.encTableSizeDirty = false
+
+		if c.encTableSizeMin < c.encTableSize {
+			c.enc.SetMaxTableSize(c.encTableSizeMin)
+		}
+
+		c.encTableSizeSeen = c.encTableSize
+		c.enc.SetMaxTableSize(c.encTableSize)
 	}
+
+	c.sendLck.Unlock()
 
 	enc := c.enc
 
@@ -1538,14 +1568,27 @@ func (c *Conn) writePing() error {
 }
 
 func (c *Conn) handleSettings(st *Settings) {
-	st.CopyTo(&c.serverS)
+	// Only what the frame names changes (RFC 7540 6.5.3). Copying the whole
+	// frame put every parameter it did not mention back to its default.
+	st.mergeInto(&c.serverS)
 
 	atomic.StoreUint32(&c.maxStreams, c.serverS.MaxConcurrentStreams())
 	atomic.StoreUint32(&c.maxFrameSize, c.serverS.MaxFrameSize())
 
 	// The encoder belongs to the write loop, so the new table size is handed
 	// over rather than applied here.
-	atomic.StoreUint32(&c.encTableSize, st.HeaderTableSize())
+	if st.Has(HeaderTableSize) {
+		c.sendLck.Lock()
+
+		if !c.encTableSizeDirty || st.tableSizeMin < c.encTableSizeMin {
+			c.encTableSizeMin = st.tableSizeMin
+		}
+
+		c.encTableSizeDirty = true
+		c.encTableSize = st.HeaderTableSize()
+
+		c.sendLck.Unlock()
+	}
 
 	// A change to SETTINGS_INITIAL_WINDOW_SIZE applies to every stream that is
 	// already open, as a delta on what it has left.
